@@ -23,12 +23,13 @@ class Undecided(Exception):
 
 
 class SetAlg:
-    def __init__(self, rec, canon_field: str, syn_field: str, named: dict) -> None:
+    def __init__(self, rec, canon_field: str, syn_field: str, named: dict, summary=None) -> None:
         """``named``: term -> short name for the values that may be compared (e.g. {$4: 'old', $5: 'new'})."""
         self.rec = rec
         self.canon_field = canon_field
         self.syn_field = syn_field
         self.named = dict(named)
+        self.summary = summary
         self.heap = {canon_field: ("ATOM", "c0"), syn_field: ("SETATOM", "S")}
 
     # ------------------------------------------------------------------ heap
@@ -50,7 +51,34 @@ class SetAlg:
             return self.heap[t[2]]
         if op(t) in ("ATOM", "SETATOM"):
             return t
+        if op(t) == "snap":
+            return t
+        if op(t) == "new":
+            return self.snapshot(t)
         return tuple(self.resolve(x) if isinstance(x, tuple) else x for x in t)
+
+    def snapshot(self, x):
+        """Content of a local container as a pure expression, field reads resolved against the heap NOW."""
+        if x[1] not in ("set", "list"):
+            raise Undecided(f"local container of kind {x[1]} in a set expression")
+        init = x[4] if len(x) > 4 else None
+        base = self.resolve(init) if op(init) in ("set", "list", "tuple") and init[1] else ("set", ())
+        muts = []
+        if self.summary is not None:
+            seen = set()
+            for ev, _ in sorted(self.summary.mutations_of(x), key=lambda e: e[0].line):
+                if ev.kind != "expr" or op(ev.a) != "call":
+                    raise Undecided("item store into a local set")
+                if (ev.line, ev.a) in seen:
+                    continue
+                seen.add((ev.line, ev.a))
+                m, args = callee_name(ev.a), ev.a[2]
+                if m == "sort":
+                    continue
+                if m not in ("add", "append", "discard", "remove", "update", "extend", "difference_update") or len(args) != 1:
+                    raise Undecided(f"mutation .{m}() of a local set not recognised")
+                muts.append((m, self.resolve(args[0])))
+        return ("snap", base, tuple(muts))
 
     # ------------------------------------------------------------------ evaluation
     def rows(self):
@@ -72,12 +100,24 @@ class SetAlg:
         raise Undecided(f"element `{show(e)[:60]}` is not one of the named values")
 
     def member(self, x, val, bound=None) -> bool:
-        x = self.resolve(x) if op(x) not in ("SETATOM",) else x
+        x = self.resolve(x) if op(x) not in ("SETATOM", "snap") else x
         o = op(x)
         if o == "SETATOM":
             return val["S"]
         if o == "ATOM":
             raise Undecided("canonical value used as a set")
+        if o == "snap":
+            cur = self.member(x[1], val)
+            for m, arg in x[2]:
+                if m in ("add", "append"):
+                    cur = cur or self.eq(arg, val)
+                elif m in ("discard", "remove"):
+                    cur = cur and not self.eq(arg, val)
+                elif m in ("update", "extend"):
+                    cur = cur or self.member(arg, val)
+                elif m == "difference_update":
+                    cur = cur and not self.member(arg, val)
+            return cur
         if o in ("set", "list", "tuple"):
             for e in x[1]:
                 if op(e) == "star":
